@@ -1,6 +1,33 @@
-From LD Require Import Base F32 Data Model Ops Bucket Eval EvalFacts.
-(* first obligation; the full statements of DESIGN.md section 6 are added as they are proved *)
-Theorem C12_invalid_ctx_untouched : forall re_ok re_match o E P f,
-  run re_ok re_match o E P CInvalid f = Done (mkoutcome (err_detail KUserNotSpecified) false []).
-Proof. exact run_invalid. Qed.
-Print Assumptions C12_invalid_ctx_untouched.
+(* C12 Evaluation is a pure function. Model level: the value, index and reason of every evaluation are those of the
+   state-free reference interpreter p_run, whatever the cache / status register / trace contain (Refine.v); the
+   source-level part (nothing reachable from Evaluate writes shared memory) is in LDGen.EffectsProof. *)
+From LD Require Import Base F32 Data Model Ops Bucket Eval EvalFacts Pure Refine.
+
+Theorem C12_result_is_a_function_of_the_inputs : forall re_ok re_match o E P c f out,
+  run re_ok re_match o E P c f = Done out ->
+  exists d, p_run re_ok re_match o E P c f = Done d /\
+            d_value (out_detail out) = d_value d /\ d_index (out_detail out) = d_index d /\
+            rs_kind (d_reason (out_detail out)) = rs_kind (d_reason d) /\
+            rs_inexp (d_reason (out_detail out)) = rs_inexp (d_reason d).
+Proof. exact run_is_pure. Qed.
+Print Assumptions C12_result_is_a_function_of_the_inputs.
+
+(* the nested evaluations agree with the reference interpreter from ANY state whose cache holds only provider answers:
+   nothing carried over from earlier work can change an answer *)
+Theorem C12_state_cannot_influence_results : forall re_ok re_match o E P c fuel chain f s,
+  Inv P s ->
+  fst (eval_flag re_ok re_match o E P c fuel chain f s) = p_eval re_ok re_match o E P c fuel chain f /\
+  Inv P (snd (eval_flag re_ok re_match o E P c fuel chain f s)).
+Proof. exact sim_eval_flag. Qed.
+Print Assumptions C12_state_cannot_influence_results.
+
+(* a history of calls against one evaluator: the model's evaluator state is its options only, so the i-th answer is
+   the answer a fresh evaluator gives *)
+Definition call := (env * bsprov * ctx * flag)%type.
+Definition answer re_ok re_match o (x : call) : res outcome :=
+  let '(E, P, c, f) := x in run re_ok re_match o E P c f.
+Theorem C12_history : forall re_ok re_match o (h : list call) i x,
+  nth_error h i = Some x ->
+  nth_error (map (answer re_ok re_match o) h) i = Some (answer re_ok re_match o x).
+Proof. intros. apply map_nth_error. assumption. Qed.
+Print Assumptions C12_history.
